@@ -33,7 +33,7 @@ type c16StaleIn struct {
 	CommitIdx    uint64 `json:"commit_idx"`
 }
 
-const c16Margin = int64(200 * time.Millisecond)
+const c16Margin = int64(2 * time.Second)
 
 // the duration time.Since(contact) is constructed to have (up to the few microseconds between
 // the construction and the call, which the margin absorbs)
